@@ -189,7 +189,8 @@ SPECS['C08'] = {
     'technique': 'stateless model checking of the two real endpoints under a controlled scheduler and environment: deviation-bounded exhaustive exploration of short reads / partial sends / task switches at every socket call, plus the crossed application size alphabet; every execution is an implementation run',
     'claim': 'For 3 protocols x {server-auth, mutual} x chain depth 1..3, under every environment schedule with at most k deviations (short read, partial send, task switch at any of the ~300 socket calls) the handshake completes on both sides with identical secrets, suite and version, the scripted data arrives complete and in order in both directions and the close is observed; for every write size x read buffer x direction x burst combination of the size alphabet the same holds under the default environment.',
     'trusted': 'in-memory pipe and hand-off scheduler (harness/vnet.h) model a blocking stream socket; entropy and clock scripted per endpoint; endpoints are deterministic functions of the bytes they consume',
-    'rule': 'env blocks: per configuration the DFS over choice prefixes: at every send {all, 1 byte, half} and every recv {full, 1 byte, half} and after each {continue, switch}; bound = number of non-default choices (quick: 1; thorough: 2 for depth-1 chains, 1 otherwise). interleaved blocks: the server reads part of a record (buffers 1,7,100,999 of records 17,1000,16384), writes {1,500,16384,20000} bytes, reads the rest; sizes blocks: write sizes {1,2,15,16,17,16383,16384,16385,32768,50000} x read buffers {1,7,16384,20000} x {single, burst of 3} x {c2s, s2c} x 3 protocols. distinct = (configuration, choice prefix); states/transitions = choice points visited.',
+    'require_counters': {'quick': {'tlcp_serverauth_handshakes_with_a_short_client_key_exchange': 2, 'tlcp_mutual_handshakes_with_a_short_client_key_exchange': 2}},
+    'rule': 'env blocks: per configuration the DFS over choice prefixes: at every send {all, 1 byte, half} and every recv {full, 1 byte, half} and after each {continue, switch}; bound = number of non-default choices (quick: 1; thorough: 2 for depth-1 chains, 1 otherwise). interleaved blocks: the server reads part of a record (buffers 1,7,100,999 of records 17,1000,16384), writes {1,500,16384,20000} bytes, reads the rest; sizes blocks: write sizes {1,2,15,16,17,16383,16384,16385,32768,50000} x read buffers {1,7,16384,20000} x {single, burst of 3} x {c2s, s2c} x 3 protocols. distinct = (configuration, choice prefix); states/transitions = choice points visited. Block keys-*: the honest handshake under 4096 (TLCP; thorough 16384) / 256 (TLS 1.2, TLS 1.3; thorough 1024) further entropy scripts per authentication mode, same oracle; TLCP runs whose ClientKeyExchange carries a shorter-than-usual SM2 ciphertext (coordinate with leading zero octets) are counted and a minimum is required.',
     'bound': {'quick': 'deviations <= 1', 'thorough': 'deviations <= 2 (depth-1 chains) / 1 (depth 2,3)'},
     'assumptions': ['blocking sockets only (EAGAIN mid-handshake is documented as unsupported)', 'sizes outside the alphabet not covered'],
     'quick': [J('c08', 'fast', srcs=TLSSRC)],
